@@ -229,7 +229,9 @@ class ModelParallel:
             if sch.ctx.choose("outer-backend", 2, 1, "an outer joblib context selects a process-based backend") == 1:
                 import copy
                 iterable = [(fn, copy.deepcopy(a), copy.deepcopy(k)) for fn, a, k in iterable]
-        res = sch.run_tasks(iterable, self.n_jobs)
+        tasks = list(iterable)
+        # workers beyond the number of tasks never get anything to do (joblib starts them lazily): not modelled as threads
+        res = sch.run_tasks(tasks, max(1, min(int(self.n_jobs), len(tasks))) if self.n_jobs and self.n_jobs > 0 else self.n_jobs)
         if self.timeout is not None and res:
             # joblib raises TimeoutError in the caller when a task needs longer than `timeout`; how long the user's
             # objective takes is the environment's choice (evaluation time is unbounded in the statement)
